@@ -13,6 +13,10 @@
     * `set <local|parameter|global|property> = e`
     * command calls `f` / `f a, b, …` of handlers of the same script (opcode 56) or external commands (57), names ≠ sound / go
     * `exit`
+    * `put e into|after|before <target>` (59 xx for a bare `field x` / local variable — `into` a variable is written `set` —,
+      5a xx with the eight chunk slots for `char 1 of word 2 of <field x | local>`), `delete <chunk of field x | local>` (5b xx),
+      `hilite <field x | chunk of field x>` (18); the chunk chain of a target must be strictly coarser outwards (the scheme's
+      single-slice form; anything else does not compile); a chunk of a GLOBAL as target is outside (see design.d/C02Link.md)
   with `e` built, nested without bound, from: integer literals 0 … 2^31-1 (all four encodings: 03, 41 n, 81 hi lo, pool constant),
   string constants (non-empty, printable ASCII without quote / backslash — the rest is property C11), symbols `#x`, variables of
   the four kinds, unary minus / not, the binary operators except `starts` (finding F40), `field e`, function calls `f(a, …)` with
@@ -210,6 +214,15 @@ def exScript : Script :=
                   .set (.var .loc "t".toList) (.chunk .char (.int 1) (.int 0) (.chunk .word (.int 2) (.int 3) (.chunk .line (.var .loc "z".toList) (.int 0) (.var .loc "t".toList)))),
                   .set (.var .loc "t".toList) (.bin .concat (.the .field 2 [.str "status".toList]) (.the .field 1 [.bin .add (.var .loc "z".toList) (.int 1)])),
                   .set (.var .loc "pl".toList) (.plist [.sym "h".toList, .bin .add (.var .loc "z".toList) (.int 1), .str "w".toList, .plist [], .sym "n".toList, .plist [.int 1, .list [.int 2]]]),
+                  .put .after (.str "!".toList) (.var .loc "t".toList),
+                  .put .into (.bin .add (.var .loc "z".toList) (.int 1)) (.field (.int 3)),
+                  .put .before (.var .loc "y".toList) (.field (.str "status".toList)),
+                  .put .into (.str "ab".toList) (.chunk .char (.int 1) (.int 0) (.chunk .word (.int 2) (.int 0) (.field (.str "status".toList)))),
+                  .put .after (.var .loc "z".toList) (.chunk .line (.int 2) (.int 3) (.var .loc "t".toList)),
+                  .delete (.chunk .word (.var .loc "z".toList) (.int 0) (.var .loc "t".toList)),
+                  .delete (.chunk .char (.int 1) (.int 4) (.chunk .item (.int 2) (.int 0) (.chunk .line (.int 1) (.int 0) (.field (.int 3))))),
+                  .hilite (.field (.str "status".toList)),
+                  .hilite (.chunk .word (.int 2) (.int 0) (.field (.bin .add (.var .loc "z".toList) (.int 1)))),
                   .call "beep".toList [],
                   .exit ] } ] }
 
@@ -227,7 +240,7 @@ example : ∃ c, compile {} exScript = .ok c ∧ NamesOk c := by
 
 /-- the text the theorem predicts for the example (also the output of the real decompiler on the compiled chunks) -/
 example : String.ofList (mText exScript) =
-    "property score\nglobal gTotal\n\non startUp a, b\n    set x = ((a - (gTotal - 1)) * -(b + 70000))\n    set score = not (x <= 300)\n    set gTotal = sprite 1 within (x + 2)\nend\n\non finish\n    global counter\n    global zLast\n\n    set y = (score & (0 mod 129))\n    set z = max(field 3, [1, y, []])\n    startUp z, startUp(1, 2)\n    alert \"Hi there!\", #warn, (\"a\" && z)\n    set zLast = (counter + gTotal)\n    set w = (the mouseH + (the stageColor + (the floatPrecision + the frameLabel)))\n    set q = [the locH of sprite 3, the name of cast z, the volume of sound 2, the duration of cast \"clip\"]\n    set the locH of sprite z = (the locH of sprite z + 5)\n    set the text of cast \"title\" = \"Done\"\n    set the stageColor = 255\n    set the floatPrecision = 4\n    set the width of q = (the height of rect(z) * 2)\n    set t = (char 1 of y & word (z + 1) to 3 of char 2 to 9 of field 3)\n    set t = line 2 of item 1 to 2 of t\n    set t = (the number of words of t + the last char of line 1 of t)\n    set t = char 1 of word 2 to 3 of line z of t\n    set t = (the text of field \"status\" & the name of field (z + 1))\n    set pl = [#h: (z + 1), \"w\": [:], #n: [1: [2]]]\n    beep\n    exit\nend\n" := by
+    "property score\nglobal gTotal\n\non startUp a, b\n    set x = ((a - (gTotal - 1)) * -(b + 70000))\n    set score = not (x <= 300)\n    set gTotal = sprite 1 within (x + 2)\nend\n\non finish\n    global counter\n    global zLast\n\n    set y = (score & (0 mod 129))\n    set z = max(field 3, [1, y, []])\n    startUp z, startUp(1, 2)\n    alert \"Hi there!\", #warn, (\"a\" && z)\n    set zLast = (counter + gTotal)\n    set w = (the mouseH + (the stageColor + (the floatPrecision + the frameLabel)))\n    set q = [the locH of sprite 3, the name of cast z, the volume of sound 2, the duration of cast \"clip\"]\n    set the locH of sprite z = (the locH of sprite z + 5)\n    set the text of cast \"title\" = \"Done\"\n    set the stageColor = 255\n    set the floatPrecision = 4\n    set the width of q = (the height of rect(z) * 2)\n    set t = (char 1 of y & word (z + 1) to 3 of char 2 to 9 of field 3)\n    set t = line 2 of item 1 to 2 of t\n    set t = (the number of words of t + the last char of line 1 of t)\n    set t = char 1 of word 2 to 3 of line z of t\n    set t = (the text of field \"status\" & the name of field (z + 1))\n    set pl = [#h: (z + 1), \"w\": [:], #n: [1: [2]]]\n    put \"!\" after t\n    put (z + 1) into field 3\n    put y before field \"status\"\n    put \"ab\" into char 1 of word 2 of field \"status\"\n    put z after line 2 to 3 of t\n    delete word z of t\n    delete char 1 to 4 of item 2 of line 1 of field 3\n    hilite field \"status\"\n    hilite word 2 of field (z + 1)\n    beep\n    exit\nend\n" := by
   decide +kernel
 
 /-! ### non-vacuity, structured -/
@@ -250,7 +263,10 @@ def exStructured : Script :=
             .ifThen (.key "mouseDown".toList) [ .exit ] [] ],
           .repeatWhile (.key "stillDown".toList) [
             .set (.the .sprite 13 [.int 3]) (.bin .sub (.key "mouseH".toList) (.the .numChunks 1 [.the .field 2 [.str "note".toList]])),
-            .set (.var .loc "x".toList) (.chunk .word (.int 1) (.int 0) (.oprop "title".toList (.var .loc "x".toList))) ],
+            .set (.var .loc "x".toList) (.chunk .word (.int 1) (.int 0) (.oprop "title".toList (.var .loc "x".toList))),
+            .delete (.chunk .char (.int 1) (.int 0) (.var .loc "x".toList)),
+            .ifThen (.bin .eq (.var .loc "x".toList) (.str "q".toList))
+              [ .put .before (.var .loc "x".toList) (.chunk .word (.int 1) (.int 0) (.chunk .line (.var .param "n".toList) (.int 0) (.field (.str "note".toList)))) ] [] ],
           .repeatWhile (.bin .and (.bin .lt (.var .loc "x".toList) (.bin .mul (.var .param "n".toList) (.int 2))) (.un .not (.key "mouseDown".toList))) [
             .set (.var .loc "x".toList) (.bin .add (.var .loc "x".toList) (.int 1)) ] ] } ] }
 
@@ -267,7 +283,7 @@ example : ∃ c, compile {} exStructured = .ok c ∧ NamesOk c := by
   | ok c => rw [hc] at h; exact ⟨c, rfl, by simpa [NamesOk] using h⟩
 
 example : String.ofList (mText exStructured) =
-    "on go n\n    set x = 1\n    repeat while not (x >= n)\n        if (x = 3) then\n            repeat with i = 1 to 9\n                show i\n            end repeat\n        else\n            set x = (x + 2)\n        end if\n        show x\n    end repeat\n    repeat with j = (n * 2) down to 1\n        if the mouseDown then\n            exit\n        end if\n    end repeat\n    repeat while the stillDown\n        set the locH of sprite 3 = (the mouseH - the number of chars of the text of field \"note\")\n        set x = word 1 of the title of x\n    end repeat\n    repeat while (x < (n * 2)) and not the mouseDown\n        set x = (x + 1)\n    end repeat\nend\n" := by
+    "on go n\n    set x = 1\n    repeat while not (x >= n)\n        if (x = 3) then\n            repeat with i = 1 to 9\n                show i\n            end repeat\n        else\n            set x = (x + 2)\n        end if\n        show x\n    end repeat\n    repeat with j = (n * 2) down to 1\n        if the mouseDown then\n            exit\n        end if\n    end repeat\n    repeat while the stillDown\n        set the locH of sprite 3 = (the mouseH - the number of chars of the text of field \"note\")\n        set x = word 1 of the title of x\n        delete char 1 of x\n        if (x = \"q\") then\n            put x before word 1 of line n of field \"note\"\n        end if\n    end repeat\n    repeat while (x < (n * 2)) and not the mouseDown\n        set x = (x + 1)\n    end repeat\nend\n" := by
   decide +kernel
 
 /-- a flat handler with `the` forms in assignments next to a structured handler -/
@@ -277,11 +293,14 @@ def exMixed : Script :=
       { name := "mouseUp".toList, params := [], isMethod := false,
         body := [ .set (.var .loc "h".toList) (.key "mouseH".toList),
                   .set (.the .sprite 13 [.int 5]) (.bin .sub (.var .loc "h".toList) (.int 16)),
+                  .put .into (.var .loc "h".toList) (.field (.str "out".toList)),
                   .call "count".toList [.var .loc "h".toList] ] },
       { name := "count".toList, params := ["n".toList], isMethod := false,
         body := [ .repeatWith (.var .loc "i".toList) (.int 1) (.var .param "n".toList) false [
                     .ifThen (.bin .gt (.the .sprite 13 [.var .loc "i".toList]) (.int 300))
-                      [ .set (.var .glob "gScore".toList) (.bin .add (.var .glob "gScore".toList) (.int 1)) ] [] ] ] } ] }
+                      [ .set (.var .glob "gScore".toList) (.bin .add (.var .glob "gScore".toList) (.int 1)),
+                        .put .after (.var .glob "gScore".toList) (.chunk .line (.var .loc "i".toList) (.int 0) (.field (.str "log".toList))) ]
+                      [ .hilite (.chunk .line (.var .loc "i".toList) (.int 0) (.field (.str "log".toList))) ] ] ] } ] }
 
 example : FragScriptM exMixed = true := by decide +kernel
 example : FragScript exMixed = false := by decide +kernel
@@ -296,7 +315,7 @@ example : ∃ c, compile {} exMixed = .ok c ∧ NamesOk c := by
   | ok c => rw [hc] at h; exact ⟨c, rfl, by simpa [NamesOk] using h⟩
 
 example : String.ofList (mText exMixed) =
-    "global gScore\n\non mouseUp\n    set h = the mouseH\n    set the locH of sprite 5 = (h - 16)\n    count h\nend\n\non count n\n    repeat with i = 1 to n\n        if (the locH of sprite i > 300) then\n            set gScore = (gScore + 1)\n        end if\n    end repeat\nend\n" := by
+    "global gScore\n\non mouseUp\n    set h = the mouseH\n    set the locH of sprite 5 = (h - 16)\n    put h into field \"out\"\n    count h\nend\n\non count n\n    repeat with i = 1 to n\n        if (the locH of sprite i > 300) then\n            set gScore = (gScore + 1)\n            put gScore after line i of field \"log\"\n        else\n            hilite line i of field \"log\"\n        end if\n    end repeat\nend\n" := by
   decide +kernel
 
 end DrxProps.C02Link
